@@ -6,11 +6,11 @@ package main
 // cannot discharge.
 
 import (
-	"os"
 	"fmt"
 	"go/constant"
 	"go/token"
 	"go/types"
+	"os"
 	"sort"
 	"strings"
 
@@ -27,7 +27,9 @@ type panicSite struct {
 // shape: kind + static type of the indexed/sliced value + the index as a constant or "var":
 // what remains of a reviewed access when the code around it is reorganised.
 func (s panicSite) shape() string {
-	tstr := func(v ssa.Value) string { return types.TypeString(v.Type(), func(p *types.Package) string { return p.Name() }) }
+	tstr := func(v ssa.Value) string {
+		return types.TypeString(v.Type(), func(p *types.Package) string { return p.Name() })
+	}
 	idx := func(v ssa.Value) string {
 		if v == nil {
 			return ""
@@ -782,7 +784,6 @@ func panicFree(p *Prog, r *Report, rule string, roots []*ssa.Function, scope fun
 	r.count("bounds_discharged", ndis)
 	r.ok(rule, "summary", "", fmt.Sprintf("%d functions reachable from %d entry points; %d bound checks discharged by the guard analysis; %d reviewed sites", len(fns), len(roots), ndis, nallowed))
 }
-
 
 // splitSiteKey: "<function>:<kind>:<expr>" -> package, kind+expr
 func splitSiteKey(k string) (pkg, rest string) {
